@@ -374,16 +374,14 @@ def match_known(known, pid, hist_lines, fail):
 
 LEVELS = {
     # full statement proved in Lean (for the scope stated in level_note)
-    "C01": "proof", "C02": "proof", "C05": "proof", "C08": "proof", "C09": "proof", "C10": "proof", "C11": "proof", "C12": "proof",
+    "C01": "proof", "C02": "proof", "C05": "proof", "C06": "proof", "C07": "proof", "C08": "proof", "C09": "proof", "C10": "proof", "C11": "proof", "C12": "proof",
     # Lean model + proved fragments; the full statement is kept as a `def …_statement` and is decided on the
     # implementation side by the oracle under exhaustive / random exploration
-    "C03": "other", "C04": "other", "C06": "other", "C07": "other",
+    "C03": "other", "C04": "other",
 }
 EXPLANATIONS = {
     "C03": "Lean: small-step model tied to the code by event-log replay; proved: Search never writes, lock bookkeeping (C09/C10), sequential refinement (C01); the linearizability statement is a def, not proved. Decided by the linearizability checker on the implementation under ALL schedules of a catalogue of small configurations and thousands of random schedules.",
     "C04": "Lean: proved: Pair returns an entry of the held leaf, cursor operations never write, the hop is lock-next-then-unlock-current; the successor-query statement is a def. Decided by the linearizability checker (Scan as successor query) under all schedules of the writer-next-to-cursor catalogue and random schedules.",
-    "C06": "Lean: proved: (reduction) every reachable configuration that is ranked — each waiting thread waits for a mutex after all it holds in the level order of the tree — and in which no thread ended with an open cursor has an enabled thread (uses mutual exclusion, proved); only Lock() on a held mutex blocks; every step terminates; Delete's left->child->right lock order. That every reachable configuration is ranked is NOT proved: it is evaluated by the model driver in every replayed configuration and by the lockorder oracle in every scheduler state of the implementation; deadlock itself is decided (not timed out) by the wait-for graph under all schedules of the catalogues and random schedules.",
-    "C07": "PARTIAL by nature: no Lean model exhibits hardware/compiler behaviour; proved: MUTUAL EXCLUSION of every mutex in every reachable configuration (C07_mutual_exclusion: owner table = union of held lists, no mutex owned twice), read-only operations write nothing, root replaced only under rootMutex; the write-frame half of the discipline statement is a def. Decided for the observed executions by the Go race detector (real goroutines, real sync.Mutex, six types, orders 4 and 64).",
 }
 
 
